@@ -1155,6 +1155,35 @@ pub(crate) fn verify_mmr_proof<'a, T: Iterator<Item = &'a HeaderView>>(
             }
         }
     };
+    // Merging header digests adds their total difficulties with a panicking addition and
+    // computes `end_number + 1`: refuse proofs whose peer-supplied values would overflow.
+    {
+        if raw_proof
+            .iter()
+            .any(|digest| Unpack::<BlockNumber>::unpack(&digest.end_number()) == BlockNumber::MAX)
+        {
+            let errmsg = "failed to verify the proof since a block number overflows";
+            return Err(StatusCode::InvalidProof.with_context(errmsg));
+        }
+        let mut sum = U256::zero();
+        let difficulties = raw_proof
+            .iter()
+            .map(|digest| Unpack::<U256>::unpack(&digest.total_difficulty()))
+            .chain(
+                digests_with_positions
+                    .iter()
+                    .map(|(_, digest)| Unpack::<U256>::unpack(&digest.total_difficulty())),
+            );
+        for difficulty in difficulties {
+            sum = match sum.checked_add(&difficulty) {
+                Some(sum) => sum,
+                None => {
+                    let errmsg = "failed to verify the proof since total difficulties overflow";
+                    return Err(StatusCode::InvalidProof.with_context(errmsg));
+                }
+            };
+        }
+    }
     let verify_result = match proof.verify(parent_chain_root, digests_with_positions) {
         Ok(verify_result) => verify_result,
         Err(err) => {
